@@ -283,6 +283,11 @@ def build(prop: str) -> BuildResult:
             br.ok, br.log, br.failed_target = False, out, "Props/%s.v" % prop
             return br
         br.assumptions = _parse_assumptions(out)
+        bad = [a for a in br.assumptions if a.startswith("Axioms:")]
+        if bad:
+            br.ok, br.failed_target = False, "Print Assumptions of Props/%s.v: %s" % (prop, "; ".join(bad)[:400])
+            br.log = out
+            return br
         # engine freshness
         evo = os.path.join(COQ, "Extract", "Engine.vo")
         if (not os.path.exists(ENGINE)
@@ -294,6 +299,24 @@ def build(prop: str) -> BuildResult:
     files = cone_of("Props/%s.v" % prop)
     br.obligations, br.theorems = count_obligations(files)
     return br
+
+
+def coqchk(prop: str, timeout=2400):
+    """Independent re-check of the compiled cone of Props/<prop>.v (thorough tier).
+    -> (status, summary): status in ok | axioms | failed | timeout"""
+    t0 = time.time()
+    try:
+        rc, out = run(["bash", "-c", "ulimit -s unlimited; cd %s && coqchk -silent -o -Q . Zorg Zorg.Props.%s" % (COQ, prop)],
+                      timeout=timeout)
+    except Exception as e:  # noqa: BLE001
+        return "timeout", "coqchk did not finish within %ds (%s)" % (timeout, type(e).__name__)
+    m = re.search(r"\* Axioms:(.*?)\n\s*\n\* Constants/Inductives relying on type-in-type:(.*?)\n", out, re.S)
+    summ = " ".join(out[out.find("CONTEXT SUMMARY"):].split())[:600]
+    if rc != 0:
+        return "failed", out[-1500:]
+    if not m or m.group(1).strip() != "<none>" or m.group(2).strip() != "<none>":
+        return "axioms", summ
+    return "ok", summ + " (%.0fs)" % (time.time() - t0)
 
 
 def _parse_assumptions(out: str) -> list[str]:
